@@ -297,7 +297,7 @@ func runC08(res *Result, d *Driver, tier string, seed uint64) {
 			b.W.Close()
 			select {
 			case <-b.Done:
-			case <-time.After(5 * time.Second):
+			case <-time.After(30 * time.Second):
 				res.Mismatch(Mismatch{Kind: "oracle", What: "collector Done never closes", Input: fmt.Sprintf("N=%d V=%d", N, V), Oracle: "violates"})
 			}
 			el := time.Since(t0)
@@ -305,7 +305,7 @@ func runC08(res *Result, d *Driver, tier string, seed uint64) {
 			res.Case(key, V > N, "buffer")
 			wantLen := min(V, N+1)
 			wrote := fmt.Sprintf("out %d wrote=%d err=0", V, V)
-			if runErr != nil || int64(b.Buffer.Len()) != wantLen || !strings.Contains(errb.String(), wrote) || el > 4*time.Second {
+			if runErr != nil || int64(b.Buffer.Len()) != wantLen || !strings.Contains(errb.String(), wrote) || el > 20*time.Second {
 				res.Mismatch(Mismatch{Kind: "oracle", What: "capped collector retains min(V,N+1) bytes and never blocks or breaks the writer (C08_buffer_cap)", Input: key,
 					Impl: fmt.Sprintf("len=%d writer=%q err=%v elapsed=%v", b.Buffer.Len(), strings.TrimSpace(errb.String()), runErr, el), Model: fmt.Sprintf("len=%d %s", wantLen, wrote), Oracle: "violates"})
 			}
